@@ -18,7 +18,7 @@ KINDS = {
             "resend_after_done", "added_not_committed_once", "batch_bytes_exceeded", "batch_stale", "parent_sent", "deliverable_event_not_sent",
             "not_idle", "unaccounted"},       # an added event that is never committed
     "C15": {"unaccounted", "not_idle", "panic"},      # a line of a run that never comes out (stream-level windows under a join-like action)
-    "C19": {"deliverable_event_not_sent", "parent_sent", "payload_of_other_event"},
+    "C19": {"deliverable_event_not_sent", "parent_sent", "payload_of_other_event", "commit_before_send_return"},   # incl. a batch that never reached the send function
     "C09": {"gave_up_without_events", "payload_of_other_event", "pause_too_short", "gave_up_early", "gave_up_unlimited", "onerror_twice", "failed_twice", "fail_without_dq",
             "commit_of_dead_queued", "exhausted_not_dq_only", "exhausted_not_main_once",
             "commit_before_send_return", "not_idle", "unaccounted"},     # an event of an exhausted batch that nobody ever commits
